@@ -114,6 +114,29 @@ fn add_bundle(app: &mut App, kinds: &[usize]) -> bool {
     true
 }
 
+fn add_with_priority(app: &mut App, group: &str, p: usize) -> bool {
+    use bevy_replicon::shared::replication::replication_registry::rule_fns::RuleFns;
+    macro_rules! f { ($t:ty) => { RuleFns::<$t>::default() }; }
+    match group {
+        "0" => app.replicate_with_priority(p, f!(K0)),
+        "1" => app.replicate_with_priority(p, f!(K1)),
+        "2" => app.replicate_with_priority(p, f!(K2)),
+        "3" => app.replicate_with_priority(p, f!(K3)),
+        "4" => app.replicate_with_priority(p, f!(K4)),
+        "5" => app.replicate_with_priority(p, f!(K5)),
+        "0+1" => app.replicate_with_priority(p, (f!(K0), f!(K1))),
+        "1+0" => app.replicate_with_priority(p, (f!(K1), f!(K0))),
+        "0+2" => app.replicate_with_priority(p, (f!(K0), f!(K2))),
+        "1+2" => app.replicate_with_priority(p, (f!(K1), f!(K2))),
+        "2+3" => app.replicate_with_priority(p, (f!(K2), f!(K3))),
+        "0+3" => app.replicate_with_priority(p, (f!(K0), f!(K3))),
+        "0+1+2" => app.replicate_with_priority(p, (f!(K0), f!(K1), f!(K2))),
+        "1+2+3" => app.replicate_with_priority(p, (f!(K1), f!(K2), f!(K3))),
+        _ => return false,
+    };
+    true
+}
+
 fn parse_num<T: std::str::FromStr>(s: &str) -> Result<T, String> {
     s.trim().parse::<T>().map_err(|_| format!("number `{s}`"))
 }
@@ -230,6 +253,17 @@ fn run(args: &[&str]) -> Result<String, String> {
         .register_type::<K4>();
 
     for group in groups(rules) {
+        // `k+k@P`: registered with the explicit priority P (`replicate_with_priority`)
+        let (group, priority) = match group.split_once('@') {
+            Some((g, p)) => (g, Some(parse_num::<usize>(p)?)),
+            None => (group, None),
+        };
+        if let Some(p) = priority {
+            if !add_with_priority(&mut app, group, p) {
+                return Ok("UNSUPPORTED".into());
+            }
+            continue;
+        }
         let kinds: Vec<usize> = group
             .split('+')
             .map(parse_num::<usize>)
